@@ -66,13 +66,23 @@ class LineReader(object):
         return None
 
 
-def child_main(db, Row, n_sessions, go_r, rep_w, order):
+def child_main(db, Row, n_sessions, go_r, rep_w, order, child_fault=False):
     go = LineReader(go_r) if go_r is not None else None
     """what the application's child process does after the fork: its own sessions"""
     report = {'sessions': [], 'pid_ok': True}
     c = simdb.ctx
     c.foreign_pid_use = []
     n_conn0 = len(c.conns)
+    if child_fault:
+        # the child's first attempt to open its own connection fails (e.g. the file is briefly unavailable)
+        armed = [True]
+        c.phase = 'main'
+
+        def before_call(ev):
+            if armed[0] and ev['kind'] == 'connect':
+                armed[0] = False
+                c.gfaults[ev['g']] = 'cantopen'
+        c.before_call = before_call
     try:
         # a forked worker starts from its own entry point: it is not inside the parent's with-block any more.
         # (state Pony keeps per thread is inherited by fork - that is exactly what the property is about)
@@ -114,7 +124,8 @@ def run_case(case, scratch):
         Row(tag='seed0', who='setup')
         Row(tag='seed1', who='setup')
     violations = []
-    shape = 'position=%s|order=%s%s' % (position, order, '|thread' if case.get('thread') else '')
+    shape = 'position=%s|order=%s%s%s' % (position, order, '|thread' if case.get('thread') else '',
+                                          '|child-connect-fault' if case.get('child_fault') else '')
 
     def viol(sub, detail):
         key = 'C36|%s|%s' % (sub, shape)
@@ -134,7 +145,7 @@ def run_case(case, scratch):
             if pid == 0:
                 os.close(go_w)
                 os.close(rep_r)
-                child_main(db, Row, n_child, go_r, rep_w, order)
+                child_main(db, Row, n_child, go_r, rep_w, order, bool(case.get('child_fault')))
             os.close(go_r)
             os.close(rep_w)
             return pid
@@ -284,6 +295,8 @@ def run_case(case, scratch):
             child_wrote.append(s['wrote'])
         for k in ('read_error', 'write_error'):
             if k in s and 'database is locked' not in s[k]:
+                if case.get('child_fault') and 'unable to open database file' in s[k]:
+                    continue      # the injected connect failure itself
                 viol('child-session-failed', 'child session %d %s: %s' % (i, k, s[k]))
     if state.get('parent_session_error') and 'database is locked' not in state['parent_session_error']:
         viol('parent-session-failed', 'the parent session that forked failed: %s' % state['parent_session_error'])
